@@ -153,8 +153,10 @@ CHAIN_RULE = ('stream chain: provider chains of 1-9 providers over 3-6 of 10 con
               'one splitmix64 state; the real Bind/init/invoke observation (final working list with class/group/include, remaps, '
               'results, call log with provenance-tagged values) must equal the extracted Coq model\'s; ')
 CHAIN_NOTE = ('Trusted: Coq kernel, extraction (ExtrOcamlBasic), OCaml driver, Go harness and the verif hooks; Go code is modelled, not verified; '
-              'the refinement theorem assumes the decidable check plan_wf (slot tables injective/disjoint/bounded, every read type has a slot, '
-              'compiled providers = cp_of of the plan), which the run evaluates on every bound case (a case failing it is reported); '
+              'the refinement theorem assumes the decidable check plan_wf, which the run evaluates on every bound case (a case failing it is reported); of its '
+              'clauses, the slot tables being injective/disjoint/bounded (allocate_slots_ok) and every parameter / received value having a slot (plan_covers) '
+              'are proved for every accepted chain, the rest (the compiled providers being cp_of of the plan, class/group agreement) is representation '
+              'agreement inside the model; '
               'the tie is differential testing bounded by the generator.')
 
 HOOK_COMMITS = ['ae5437e']
